@@ -397,6 +397,12 @@ def _flags(m):
         out['morgan-hash-shared-by-fragment-strings'] = any(len(v) > 1 for v in m.morgan_hash_smiles(max_radius=2).values())
     except Exception:
         out['morgan-hash-shared-by-fragment-strings'] = False
+    try:    # structure + stored labels only: an atom with >= 3 neighbours and >= 2 double bonds, one of which carries a cis/trans label
+        out['labelled-double-bond-at-atom-with-two-double-bonds'] = any(
+            len(nb) >= 3 and sum(1 for b in nb.values() if b.order == 2) >= 2 and any(b.order == 2 and b.stereo is not None for b in nb.values())
+            for nb in m._bonds.values())
+    except Exception:
+        out['labelled-double-bond-at-atom-with-two-double-bonds'] = False
     return out
 
 
